@@ -340,6 +340,19 @@ def run_check(check, tier, seed, out=sys.stdout):
     for kid, kh in sorted(known_hit.items()):
         lines.append('KNOWN-FINDING: property=%s %s [%s] (seen %d times in this run)' % (
             check.ID, kh['entry']['description'], kid, kh['count']))
+        # a listed finding is a narrow class with a measured base rate; the same signature
+        # occurring an order of magnitude more often is a different violation
+        mr = kh['entry'].get('max_rate')
+        if mr and kh['count'] >= kh['entry'].get('min_count', 4) and \
+                kh['count'] > mr * max(1, agg['runs']):
+            sig0 = sorted(kh['sigs'])[0]
+            ent = agg['violations'][sig0]
+            v0 = dict(ent['first'][1])
+            v0['detail'] = 'known finding %s occurred %d times in %d runs (listed base rate ' \
+                           'allows at most %.3f per run); first: %s' % (
+                               kid, kh['count'], agg['runs'], mr, v0.get('detail'))
+            new.append(('rate|%s' % kid, {'count': kh['count'],
+                                          'first': (ent['first'][0], v0, ent['first'][2])}))
     reported = []
     for sig, ent in new[:int(os.environ.get('VERIF_MAX_REPORT', '6'))]:
         idx, v, plan = ent['first']
